@@ -123,6 +123,7 @@ type Interp struct {
 	curInstr ssa.Instruction
 	stack   []string
 	copier  *deepCopier
+	race    *raceState
 }
 
 type deferred struct {
@@ -441,6 +442,9 @@ func (ip *Interp) callFunction(fn *ssa.Function, args []Value) Value {
 	}
 	if h, ok := intrinsics[name]; ok {
 		ip.intr[name] = true
+		if ip.race != nil {
+			ip.raceIntrinsicArgs(name, args)
+		}
 		return h(ip, fn, args)
 	}
 	if h := ip.harnessAPI(fn); h != nil {
@@ -588,6 +592,7 @@ func (fr *frame) run() {
 				fmt.Fprintln(os.Stderr)
 			}
 			ip.curInstr = in
+			ip.curFn = fr.fn
 			if fr.exec(in) {
 				next = true
 				break
@@ -821,6 +826,11 @@ func (ip *Interp) load(pv Value) Value {
 			// read over the candidate cells only
 			T := ip.p.T
 			c := p.Sym.Cands
+			if ip.race != nil {
+				for _, k := range c {
+					ip.raceSlot(&p.Sym.Arr[k], false)
+				}
+			}
 			res := p.Sym.Arr[c[len(c)-1]].(*Term)
 			for i := len(c) - 2; i >= 0; i-- {
 				res = T.Ite(T.Cmp(OpEq, p.Sym.Idx, T.Const(p.Sym.Idx.W, uint64(c[i]))), p.Sym.Arr[c[i]].(*Term), res)
@@ -831,6 +841,9 @@ func (ip *Interp) load(pv Value) Value {
 	}
 	if p.Slot == nil {
 		ip.goPanic("nil pointer dereference")
+	}
+	if ip.race != nil {
+		ip.raceSlot(p.Slot, false)
 	}
 	return copyVal(*p.Slot)
 }
@@ -848,6 +861,9 @@ func (ip *Interp) store(pv Value, v Value) {
 		T := ip.p.T
 		nv := v.(*Term)
 		for _, k := range p.Sym.Cands {
+			if ip.race != nil {
+				ip.raceSlot(&p.Sym.Arr[k], true)
+			}
 			old := p.Sym.Arr[k].(*Term)
 			p.Sym.Arr[k] = T.Ite(T.Cmp(OpEq, p.Sym.Idx, T.Const(p.Sym.Idx.W, uint64(k))), nv, old)
 		}
@@ -855,6 +871,9 @@ func (ip *Interp) store(pv Value, v Value) {
 	}
 	if p.Slot == nil {
 		ip.goPanic("nil pointer dereference (store)")
+	}
+	if ip.race != nil {
+		ip.raceSlot(p.Slot, true)
 	}
 	assignInPlace(p.Slot, v)
 }
